@@ -291,9 +291,17 @@ pub fn check_msg<T: Msg>(ctx: &mut Ctx, x: &T, inj: &Inject) -> Result<(), Strin
             if mask & 4 != 0 {
                 om.push((Cbor::Text("uv".into()), Cbor::Bool(vals.2)));
             }
+            // now and then the options map also carries a text key this library does not know (an option of a later
+            // protocol revision): it is ignored like any other unknown text key
+            let extra = (inj.at as usize + mask as usize) % 3 == 0;
+            if extra {
+                let key = ["plat", "clientPin", "someFutureOption", "RK", "u"][(inj.at as usize / 3 + mask as usize) % 5];
+                om.insert((inj.at as usize) % (om.len() + 1), (Cbor::Text(key.into()), if inj.at & 8 != 0 { Cbor::Bool(true) } else { Cbor::Integer(1.into()) }));
+                ctx.class("options-map-with-an-unknown-text-key");
+            }
             let mut m2 = without.clone();
             m2.push((Cbor::Integer(ok.into()), Cbor::Map(om)));
-            let z: T = from_cbor(&to_cbor(&Cbor::Map(m2))?).map_err(|e| format!("{name}: a partial options map was rejected: {e}"))?;
+            let z: T = from_cbor(&to_cbor(&Cbor::Map(m2))?).map_err(|e| format!("{name}: a partial options map{} was rejected: {e}", if extra { " that also carries an unknown text key" } else { "" }))?;
             let want = (if mask & 1 != 0 { vals.0 } else { false }, if mask & 2 != 0 { vals.1 } else { true }, if mask & 4 != 0 { vals.2 } else { false });
             if z.options() != Some(want) {
                 return Err(format!("{name}: options map with members mask {mask:03b} parsed to (rk, up, uv) = {:?}, expected {want:?} (absent members default to rk=false, up=true, uv=false)", z.options()));
